@@ -320,4 +320,345 @@ theorem bshape2_result_ok_self {s1 s2 : List Nat} :
     have : s1.length - s2.length = 0 := by omega
     simp [this]
 
+/-! ## the n-ary fold `_get_nary_broadcast_shape` -/
+
+/-- the extents found at one axis position are pairwise compatible -/
+def ColOk (col : List Nat) : Prop := ∀ a ∈ col, ∀ b ∈ col, a = b ∨ a = 1 ∨ b = 1
+instance (col : List Nat) : Decidable (ColOk col) := by unfold ColOk; infer_instance
+
+/-- the broadcast extent at one axis position: the first extent that is not 1, else 1 -/
+def colDim (col : List Nat) : Nat := (col.find? (· ≠ 1)).getD 1
+
+def maxRank (shapes : List (List Nat)) : Nat := shapes.foldr (fun s m => max s.length m) 0
+
+/-- the column of extents at axis `k` (from the right) -/
+def colAt (shapes : List (List Nat)) (k : Nat) : List Nat := shapes.map (ext · k)
+
+def nDims (shapes : List (List Nat)) : List Nat :=
+  ((List.range (maxRank shapes)).map fun k => colDim (colAt shapes k)).reverse
+
+theorem colDim_cons (a : Nat) (col : List Nat) : colDim (a :: col) = if a = 1 then colDim col else a := by
+  unfold colDim
+  rw [List.find?_cons]
+  by_cases h : a = 1
+  · simp [h]
+  · simp [h]
+
+theorem colDim_nil : colDim [] = 1 := rfl
+
+theorem colDim_spec (col : List Nat) :
+    (colDim col = 1 ∧ ∀ a ∈ col, a = 1) ∨ (colDim col ≠ 1 ∧ colDim col ∈ col) := by
+  induction col with
+  | nil => left; simp [colDim_nil]
+  | cons a col ih =>
+    rw [colDim_cons]
+    by_cases h : a = 1
+    · rw [if_pos h]
+      rcases ih with ih | ih
+      · left; exact ⟨ih.1, by simpa [h] using ih.2⟩
+      · right; exact ⟨ih.1, List.mem_cons_of_mem _ ih.2⟩
+    · rw [if_neg h]; right; exact ⟨h, List.mem_cons_self⟩
+
+/-- under compatibility every member of a column is 1 or the column's extent -/
+theorem ColOk.mem_eq {col : List Nat} (h : ColOk col) {a : Nat} (ha : a ∈ col) : a = colDim col ∨ a = 1 := by
+  rcases colDim_spec col with hs | hs
+  · exact Or.inr (hs.2 a ha)
+  · rcases h a ha _ hs.2 with h1 | h1 | h1
+    · exact Or.inl h1
+    · exact Or.inr h1
+    · exact absurd h1 hs.1
+
+theorem colDim_perm {c c' : List Nat} (hp : c.Perm c') (h : ColOk c) : colDim c = colDim c' := by
+  rcases colDim_spec c with hs | hs <;> rcases colDim_spec c' with hs' | hs'
+  · rw [hs.1, hs'.1]
+  · exact absurd (hs.2 _ (hp.mem_iff.mpr hs'.2)) hs'.1
+  · exact absurd (hs'.2 _ (hp.mem_iff.mp hs.2)) hs.1
+  · rcases h _ hs.2 _ (hp.mem_iff.mpr hs'.2) with h1 | h1 | h1
+    · exact h1
+    · exact absurd h1 hs.1
+    · exact absurd h1 hs'.1
+
+theorem ColOk.perm {c c' : List Nat} (hp : c.Perm c') (h : ColOk c) : ColOk c' :=
+  fun a ha b hb => h a (hp.mem_iff.mpr ha) b (hp.mem_iff.mpr hb)
+
+theorem ZipOk_iff_all (s1 s2 : List Nat) :
+    ZipOk s1 s2 false ↔ ∀ k, (ext s1 k = ext s2 k ∨ ext s1 k = 1 ∨ ext s2 k = 1) := by
+  constructor
+  · intro h k
+    by_cases h1 : k < s1.length
+    · by_cases h2 : k < s2.length
+      · rcases h k h1 h2 with h3 | h3 | h3
+        · exact Or.inl h3
+        · exact Or.inr (Or.inl h3)
+        · exact Or.inr (Or.inr h3.1)
+      · exact Or.inr (Or.inr (ext_ge (by omega)))
+    · exact Or.inr (Or.inl (ext_ge (by omega)))
+  · intro h k _ _
+    rcases h k with h3 | h3 | h3
+    · exact Or.inl h3
+    · exact Or.inr (Or.inl h3)
+    · exact Or.inr (Or.inr ⟨h3, rfl⟩)
+
+/-- one step of the fold, seen in one column -/
+theorem colOk_step (a s : Nat) (rest : List Nat) (hc : s = a ∨ s = 1 ∨ a = 1) :
+    ColOk ((if s = 1 then a else s) :: rest) ↔ ColOk (a :: s :: rest) := by
+  unfold ColOk
+  simp only [List.mem_cons, forall_eq_or_imp]
+  constructor
+  · rintro ⟨⟨-, h1⟩, h2⟩
+    refine ⟨⟨Or.inl trivial, ?_, ?_⟩, ⟨?_, Or.inl trivial, ?_⟩, ?_⟩
+    · rcases hc with hc | hc | hc <;> omega
+    · intro b hb
+      have := h1 b hb
+      split at this <;> omega
+    · rcases hc with hc | hc | hc <;> omega
+    · intro b hb
+      have := h1 b hb
+      split at this <;> omega
+    · intro x hx
+      have := h2 x hx
+      refine ⟨?_, ?_, this.2⟩
+      · have := this.1; split at this <;> omega
+      · have := this.1; split at this <;> omega
+  · rintro ⟨⟨-, h1, h2⟩, ⟨-, -, h3⟩, h4⟩
+    refine ⟨⟨Or.inl trivial, ?_⟩, ?_⟩
+    · intro b hb
+      have := h2 b hb
+      have := h3 b hb
+      split <;> omega
+    · intro x hx
+      have := h4 x hx
+      refine ⟨?_, this.2.2⟩
+      split <;> omega
+
+theorem colDim_step (a s : Nat) (rest : List Nat) (h : ColOk (a :: s :: rest)) :
+    colDim ((if s = 1 then a else s) :: rest) = colDim (a :: s :: rest) := by
+  have hc := h a (by simp) s (by simp)
+  rw [colDim_cons, colDim_cons, colDim_cons]
+  by_cases hs : s = 1 <;> by_cases ha : a = 1 <;> simp [hs, ha]
+  omega
+
+theorem maxRank_cons (s : List Nat) (shapes : List (List Nat)) :
+    maxRank (s :: shapes) = max s.length (maxRank shapes) := rfl
+
+theorem colAt_cons (s : List Nat) (shapes : List (List Nat)) (k : Nat) :
+    colAt (s :: shapes) k = ext s k :: colAt shapes k := rfl
+
+theorem ext_nDims (shapes : List (List Nat)) (k : Nat) :
+    ext (nDims shapes) k = if k < maxRank shapes then colDim (colAt shapes k) else 1 := by
+  unfold nDims
+  rw [ext_reverse_map_range]
+
+theorem nDims_length (shapes : List (List Nat)) : (nDims shapes).length = maxRank shapes := by
+  simp [nDims]
+
+theorem le_maxRank {shapes : List (List Nat)} {s : List Nat} (h : s ∈ shapes) : s.length ≤ maxRank shapes := by
+  induction shapes with
+  | nil => cases h
+  | cons t shapes ih =>
+    rw [maxRank_cons]
+    rcases List.mem_cons.mp h with h | h
+    · subst h; omega
+    · have := ih h; omega
+
+theorem colAt_ge {shapes : List (List Nat)} {k : Nat} (h : maxRank shapes ≤ k) : ∀ a ∈ colAt shapes k, a = 1 := by
+  intro a ha
+  obtain ⟨s, hs, rfl⟩ := List.mem_map.mp ha
+  exact ext_ge (by have := le_maxRank hs; omega)
+
+theorem ext_nDims' (shapes : List (List Nat)) (k : Nat) : ext (nDims shapes) k = colDim (colAt shapes k) := by
+  rw [ext_nDims]
+  by_cases h : k < maxRank shapes
+  · rw [if_pos h]
+  · rw [if_neg h]
+    rcases colDim_spec (colAt shapes k) with hs | hs
+    · exact hs.1.symm
+    · exact absurd (colAt_ge (by omega) _ hs.2) hs.1
+
+theorem nDims_single (s : List Nat) : nDims [s] = s := by
+  apply ext_inj
+  · simp [nDims_length, maxRank]
+  · intro k _
+    rw [ext_nDims']
+    simp only [colAt, List.map_cons, List.map_nil, colDim_cons, colDim_nil]
+    split
+    · next h => exact h.symm
+    · rfl
+
+/-- the fold with an arbitrary accumulator -/
+theorem bfold_spec (shapes : List (List Nat)) : ∀ (acc : List Nat),
+    ((∀ k, ColOk (colAt (acc :: shapes) k)) →
+      shapes.foldlM (fun acc s => bshape2 s acc false) acc = .ok (nDims (acc :: shapes))) ∧
+    ((¬ ∀ k, ColOk (colAt (acc :: shapes) k)) →
+      shapes.foldlM (fun acc s => bshape2 s acc false) acc = .error .value) := by
+  induction shapes with
+  | nil =>
+    intro acc
+    constructor
+    · intro _
+      rw [List.foldlM_nil, nDims_single]; rfl
+    · intro h
+      exfalso; apply h
+      intro k a ha b hb
+      simp only [colAt, List.map_cons, List.map_nil, List.mem_singleton] at ha hb
+      left; rw [ha, hb]
+  | cons s rest ih =>
+    intro acc
+    rw [List.foldlM_cons]
+    by_cases hz : ZipOk s acc false
+    · rw [bshape2_of_ok hz]
+      have hz' := (ZipOk_iff_all s acc).mp hz
+      have hstep : ∀ k, ColOk (colAt (bdims s acc :: rest) k) ↔ ColOk (colAt (acc :: s :: rest) k) := by
+        intro k
+        rw [colAt_cons, colAt_cons, colAt_cons, ext_bdims]
+        exact colOk_step _ _ _ (hz' k)
+      constructor
+      · intro h
+        have h' : ∀ k, ColOk (colAt (bdims s acc :: rest) k) := fun k => (hstep k).mpr (h k)
+        show (rest.foldlM (fun acc s => bshape2 s acc false) (bdims s acc)) = _
+        rw [(ih (bdims s acc)).1 h']
+        congr 1
+        apply ext_inj
+        · rw [nDims_length, nDims_length, maxRank_cons, maxRank_cons, maxRank_cons, bdims_length]; omega
+        · intro k _
+          rw [ext_nDims', ext_nDims', colAt_cons, colAt_cons, colAt_cons, ext_bdims]
+          exact colDim_step _ _ _ (h k)
+      · intro h
+        have h' : ¬ ∀ k, ColOk (colAt (bdims s acc :: rest) k) := fun hh => h fun k => (hstep k).mp (hh k)
+        show (rest.foldlM (fun acc s => bshape2 s acc false) (bdims s acc)) = _
+        exact (ih (bdims s acc)).2 h'
+    · rw [bshape2_of_not_ok hz]
+      constructor
+      · intro h
+        exfalso; apply hz
+        rw [ZipOk_iff_all]
+        intro k
+        have := h k (ext s k) (by simp [colAt]) (ext acc k) (by simp [colAt])
+        exact this
+      · intro _; rfl
+
+theorem colOk_one_cons (col : List Nat) : ColOk (1 :: col) ↔ ColOk col := by
+  unfold ColOk
+  simp only [List.mem_cons, forall_eq_or_imp]
+  constructor
+  · intro h a ha b hb
+    exact (h.2 a ha).2 b hb
+  · intro h
+    refine ⟨⟨Or.inl trivial, fun b _ => Or.inr (Or.inl trivial)⟩, fun a ha => ⟨Or.inr (Or.inr trivial), h a ha⟩⟩
+
+theorem nDims_nil_cons (shapes : List (List Nat)) : nDims ([] :: shapes) = nDims shapes := by
+  apply ext_inj
+  · rw [nDims_length, nDims_length, maxRank_cons]; simp
+  · intro k _
+    rw [ext_nDims', ext_nDims', colAt_cons, ext_nil, colDim_cons, if_pos rfl]
+
+/-- **n-ary broadcasting, success.** -/
+theorem bshapeN_of_ok {shapes : List (List Nat)} (h : ∀ k, ColOk (colAt shapes k)) :
+    bshapeN shapes = .ok (nDims shapes) := by
+  unfold bshapeN
+  rw [(bfold_spec shapes []).1 (fun k => by rw [colAt_cons, ext_nil, colOk_one_cons]; exact h k), nDims_nil_cons]
+
+/-- **n-ary broadcasting, failure.** -/
+theorem bshapeN_of_not_ok {shapes : List (List Nat)} (h : ¬ ∀ k, ColOk (colAt shapes k)) :
+    bshapeN shapes = .error .value := by
+  unfold bshapeN
+  apply (bfold_spec shapes []).2
+  intro hh
+  apply h
+  intro k
+  have := hh k
+  rwa [colAt_cons, ext_nil, colOk_one_cons] at this
+
+theorem bshapeN_ok_iff {shapes : List (List Nat)} {r : List Nat} :
+    bshapeN shapes = .ok r ↔ (∀ k, ColOk (colAt shapes k)) ∧ r = nDims shapes := by
+  by_cases h : ∀ k, ColOk (colAt shapes k)
+  · rw [bshapeN_of_ok h]
+    constructor
+    · intro hh; exact ⟨h, (Except.ok.inj hh).symm⟩
+    · intro hh; rw [hh.2]
+  · rw [bshapeN_of_not_ok h]
+    constructor
+    · intro hh; cases hh
+    · intro hh; exact absurd hh.1 h
+
+theorem maxRank_perm {l l' : List (List Nat)} (hp : l.Perm l') : maxRank l = maxRank l' := by
+  induction hp with
+  | nil => rfl
+  | cons x _ ih => rw [maxRank_cons, maxRank_cons, ih]
+  | swap x y l => rw [maxRank_cons, maxRank_cons, maxRank_cons, maxRank_cons]; omega
+  | trans _ _ ih1 ih2 => rw [ih1, ih2]
+
+/-- **order independence.** The n-ary broadcast shape (and whether there is one) does not depend on
+the order of the operands. -/
+theorem bshapeN_perm {l l' : List (List Nat)} (hp : l.Perm l') : bshapeN l = bshapeN l' := by
+  have hcol : ∀ k, (colAt l k).Perm (colAt l' k) := fun k => hp.map _
+  by_cases h : ∀ k, ColOk (colAt l k)
+  · have h' : ∀ k, ColOk (colAt l' k) := fun k => (h k).perm (hcol k)
+    rw [bshapeN_of_ok h, bshapeN_of_ok h']
+    congr 1
+    apply ext_inj
+    · rw [nDims_length, nDims_length, maxRank_perm hp]
+    · intro k _
+      rw [ext_nDims', ext_nDims']
+      exact colDim_perm (hcol k) (h k)
+  · have h' : ¬ ∀ k, ColOk (colAt l' k) := fun hh => h fun k => (hh k).perm (hcol k).symm
+    rw [bshapeN_of_not_ok h, bshapeN_of_not_ok h']
+
+/-- NumPy's `broadcast_shapes` for any number of shapes, stated directly: pad every shape on the
+left with 1s to the largest rank; at every axis the extents must be pairwise equal-or-1; the result
+extent is the one that is not 1 (1 if all are). -/
+def specBshapeN (shapes : List (List Nat)) : Option (List Nat) :=
+  let n := maxRank shapes
+  let cols := (List.range n).map fun i => shapes.map fun s => (padL n s).getD i 1
+  if cols.all (fun c => decide (ColOk c)) then some (cols.map colDim) else none
+
+theorem padCol_eq (shapes : List (List Nat)) (i : Nat) (hi : i < maxRank shapes) :
+    (shapes.map fun s => (padL (maxRank shapes) s).getD i 1) = colAt shapes (maxRank shapes - 1 - i) := by
+  unfold colAt
+  apply List.map_congr_left
+  intro s hs
+  have hl := le_maxRank hs
+  have hi' : i < (padL (maxRank shapes) s).length := by rw [padL_length hl]; exact hi
+  rw [List.getD_eq_getElem?_getD, List.getElem?_eq_getElem hi', Option.getD_some, padL_getElem hl]
+
+theorem bshapeN_eq_spec (shapes : List (List Nat)) :
+    bshapeN shapes = (match specBshapeN shapes with | some r => .ok r | none => .error .value) := by
+  have hall : (((List.range (maxRank shapes)).map fun i => shapes.map fun s => (padL (maxRank shapes) s).getD i 1).all
+      fun c => decide (ColOk c)) = true ↔ ∀ k, ColOk (colAt shapes k) := by
+    rw [List.all_eq_true]
+    constructor
+    · intro h k
+      by_cases hk : k < maxRank shapes
+      · have := h (shapes.map fun s => (padL (maxRank shapes) s).getD (maxRank shapes - 1 - k) 1)
+          (List.mem_map.mpr ⟨maxRank shapes - 1 - k, by simp; omega, rfl⟩)
+        rw [padCol_eq _ _ (by omega)] at this
+        have hkk : maxRank shapes - 1 - (maxRank shapes - 1 - k) = k := by omega
+        rw [hkk] at this
+        simpa using this
+      · intro a ha b _
+        exact Or.inr (Or.inl (colAt_ge (by omega) a ha))
+    · intro h c hc
+      obtain ⟨i, hi, rfl⟩ := List.mem_map.mp hc
+      rw [padCol_eq _ _ (by simpa using hi)]
+      simpa using h _
+  unfold specBshapeN
+  simp only []
+  by_cases h : ∀ k, ColOk (colAt shapes k)
+  · rw [if_pos (hall.mpr h), bshapeN_of_ok h]
+    simp only []
+    congr 1
+    apply List.ext_getElem
+    · simp [nDims_length]
+    · intro i h1 h2
+      have hi : i < maxRank shapes := by rw [nDims_length] at h1; exact h1
+      simp only [List.getElem_map, List.getElem_range]
+      rw [padCol_eq _ _ hi]
+      have hr : (nDims shapes).reverse.reverse = nDims shapes := List.reverse_reverse _
+      have : (nDims shapes)[i] = ext (nDims shapes) (maxRank shapes - 1 - i) := by
+        rw [ext_lt (by rw [nDims_length]; omega)]
+        congr 1
+        rw [nDims_length]; omega
+      rw [this, ext_nDims']
+  · rw [if_neg (fun hh => h (hall.mp hh)), bshapeN_of_not_ok h]
+
 end SparseV
